@@ -457,7 +457,11 @@ impl BuiltInFunction {
                     format!("top vector index `{top}` could not be used to index (usize)")
                 })?;
 
-                Ok((Some(Primitive::Str(s[bottom..top].to_owned())), None))
+                let Some(slice) = s.get(bottom..top) else {
+                    bail!("substring {bottom}..{top} is out of range for a string of length {}", s.len())
+                };
+
+                Ok((Some(Primitive::Str(slice.to_owned())), None))
             }
             Self::StrContains => {
                 let Some(Primitive::Str(s)) = arguments.first() else {
@@ -529,14 +533,15 @@ impl BuiltInFunction {
 
                 let mut result = original.clone();
 
-                result.insert_str(
-                    (*bottom).try_into().with_context(|| {
-                        format!(
-                            "string insertion index `{bottom}` could not be used to index (usize)"
-                        )
-                    })?,
-                    new,
-                );
+                let index: usize = (*bottom).try_into().with_context(|| {
+                    format!("string insertion index `{bottom}` could not be used to index (usize)")
+                })?;
+
+                if !result.is_char_boundary(index) {
+                    bail!("insertion index {index} is out of range for a string of length {}", result.len())
+                }
+
+                result.insert_str(index, new);
                 Ok((Some(Primitive::Str(result)), None))
             }
             Self::StrReplace => {
